@@ -30,7 +30,7 @@ func init() {
 		os.Setenv("GODEBUG", gd+"rsa1024min=0")
 	}
 	zv.Register(&zv.Prop{ID: "C23", Topic: "c23", Gen: gen, Exec: exec,
-		Rule: "constructed keys 512..2049 bits (quick; ..4097 thorough) incl. modulus bit lengths = 1..7 mod 8 (513, 777, 1025, 1028, 1031, 1033, 2049, ...: emLen = k-1 resp. 1..7 masked top bits in EMSA-PSS), 2..5 primes, e in {3, 65537, random 33..bits-bit}, d mod lcm or totient, with / without / with corrupted Precomputed values; per key: raw encrypt/decrypt, PKCS#1 v1.5 and OAEP encryption/decryption, PKCS#1 v1.5 and PSS sign/verify over MD5..SHA-512 and every salt mode, each with mutated signatures/ciphertexts/digests/keys and with forgeries made with the private key (roots of EM + 2^(modBits-1) = the must-be-zero top bit / leading octet of the representative, of EM + j*256^(k-1), of EM with one structural defect; s + j*n; n - s; zero-extended); direct EMSA-PSS encode/verify cases with mutated encodings; malformed public keys (nil/0/negative N, nil/0/1/negative E) through every public operation. A case is one distinct (operation, key, inputs) line; T3 = crypto/rsa accepts/decrypts/produces the same wherever its limits allow, plus math/big references (an accepted signature has length k, s < n and a representative of the RFC 8017 shape: PSS m < 2^(modBits-1), v1.5 00 01 FF.. 00 ..digest)"})
+		Rule: "constructed keys 512..2049 bits (quick; ..4097 thorough) incl. modulus bit lengths = 1..7 mod 8 (513, 777, 1025, 1028, 1031, 1033, 2049, ...: emLen = k-1 resp. 1..7 masked top bits in EMSA-PSS), 2..5 primes, e in {3, 65537, random 33..bits-bit}, d mod lcm or totient, with / without / with corrupted Precomputed values; per key: raw encrypt/decrypt, PKCS#1 v1.5 and OAEP encryption/decryption, PKCS#1 v1.5 and PSS sign/verify over MD5..SHA-512 and every salt mode, each with mutated signatures/ciphertexts/digests/keys and with forgeries made with the private key (roots of EM + 2^(modBits-1) = the must-be-zero top bit / leading octet of the representative, of EM + j*256^(k-1), of EM with one structural defect; s + j*n; n - s; zero-extended); direct EMSA-PSS encode/verify cases with mutated encodings; malformed public keys (nil/0/negative N, nil/0/1/negative E) through every public operation; seq lines (per key): every options-struct field on its own in one call (VerifyPSS/SignPSS with PSSOptions.Hash in {unset, = hash, another hash, the same-length twin SHA-512/256 resp. SHA-512/224, an unlinked and an unknown id} x SaltLength {-1, 0, explicit, < -1}, nil options; PrivateKey.Sign with *PSSOptions / crypto.Hash; PrivateKey.Decrypt with OAEPOptions.Hash/MGFHash/Label each changed alone against ciphertexts from a harness-side OAEP encoder with MGF1 hash = and != label hash, with PKCS1v15DecryptOptions.SessionKeyLen in {<= 0, = |msg|, |msg| +- 1, k-11, k-10, > k} on valid / invalid paddings and a reader too short for the random key, with nil and with a non-options type; DecryptPKCS1v15SessionKey) and 2..4-call sequences on ONE hash.Hash, ONE io.Reader and ONE key object (all pairs (first call in {good/too-long EncryptOAEP, good/wrong-label/damaged/>= N/too-long-ciphertext/other-label-block DecryptOAEP}, then a good DecryptOAEP or EncryptOAEP), triples and quadruples of them, a reader that runs dry inside EncryptOAEP, Precompute between two calls; random mixes of SignPSS / EncryptOAEP / EncryptPKCS1v15 / session-key Decrypt / PrivateKey.Sign / verifications drawing from one reader with zero and 0x42 bytes and early exhaustion), each step compared with crypto/rsa driven through the identical sequence with its own hash object and reader (result and reader position) and with the model. A case is one distinct (operation, key, inputs) line; T3 = crypto/rsa accepts/decrypts/produces the same wherever its limits allow, plus math/big references (an accepted signature has length k, s < n and a representative of the RFC 8017 shape: PSS m < 2^(modBits-1), v1.5 00 01 FF.. 00 ..digest)"})
 }
 
 var modelHashes = []crypto.Hash{crypto.MD5, crypto.SHA1, crypto.SHA224, crypto.SHA256, crypto.SHA384, crypto.SHA512}
@@ -125,6 +125,8 @@ func exec(line string) zv.Out {
 		}
 	}
 	switch op {
+	case "seq":
+		return execSeq(a, tags)
 	case "checkpub":
 		p := ParsePub(a)
 		err := zrsa.ZVCheckPub(p)
